@@ -446,6 +446,45 @@ def namedhost_case(seed, model, rep):
         repo.done()
 
 
+def oddport_case(seed, model, rep):
+    """a lock port outside 0..65535 (legal JSON, a `usize` in the configuration): whatever the
+    implementation makes of it, two invocations are never past acquisition at the same time"""
+    rng = scen.Rng(seed)
+    repo = setup()
+    port = rng.pick([65536, 131072, 65536 * 3, 2 ** 32])
+    case = {"seed": seed, "mode": "oddport", "port": port}
+    try:
+        repo.cfg["server"]["lock"] = {"port": port}
+        repo.write_config()
+        repo.set_plan({"slow|app": {"sleep_ms": 900}, "slow|lib": {"sleep_ms": 900}})
+        repo.clear_traces()
+        holder = repo.popen(["run", "-c", "slow", "-t", "app", "lib"])
+        t0 = time.time()
+        while time.time() - t0 < 3 and holder.poll() is None and not [t for t in repo.traces() if t["command"] == "slow"]:
+            time.sleep(0.01)
+        rep.evaluations += 1
+        rep.count("oddport_cases")
+        if holder.poll() is not None:
+            # refused for everybody: nothing is ever past acquisition
+            hout, herr = holder.communicate()
+            rep.count("oddport_refused" if holder.returncode != 0 else "oddport_holder_finished_early")
+            rep.nontrivial_case(case)
+            return
+        api = rng.pick(["run", "ckupdate"])
+        p = repo.popen(APIS[api])
+        out, err = p.communicate(timeout=60)
+        alive = holder.poll() is None
+        holder.communicate(timeout=60)
+        scen.reap_helpers(repo)
+        if alive and p.returncode == 0:
+            rep.oracle_fail({"kind": "two invocations were past lock acquisition at the same time", "case": case, "contender": api,
+                             "detail": "the first run was executing its command when the contender finished successfully"})
+            return
+        rep.nontrivial_case(case)
+    finally:
+        repo.done()
+
+
 def main():
     args = scen.parse_args(sys.argv)
     t0 = time.time()
@@ -470,7 +509,9 @@ def main():
             cases.append(("nested", rng.next()))
         for _ in range((10 if args["tier"] == "thorough" else 2) * args["budget"]):
             cases.append(("namedhost", rng.next()))
-    fn = {"namedhost": namedhost_case, "hold": hold_case, "storm": storm_case, "overlap": overlap_case, "defaultport": defaultport_case, "nested": nested_case}
+        for _ in range((6 if args["tier"] == "thorough" else 2) * args["budget"]):
+            cases.append(("oddport", rng.next()))
+    fn = {"oddport": oddport_case, "namedhost": namedhost_case, "hold": hold_case, "storm": storm_case, "overlap": overlap_case, "defaultport": defaultport_case, "nested": nested_case}
     scen.run_cases(lambda c: fn[c[0]](c[1], model, rep), cases, rep, 6)
     scen.finish(args, rep, t0, model)
 
